@@ -34,6 +34,16 @@ impl Table {
         })
     }
     /// lookup: Some(text of the item found) or None
+    /// the second public conversion path: FromStr (for valid UTF-8 input); None if the input is not UTF-8
+    fn lookup_str(self, b: &[u8]) -> Option<Option<&'static str>> {
+        let s = std::str::from_utf8(b).ok()?;
+        Some(match self {
+            Table::Element => ElementName::from_str(s).ok().map(|x| x.to_str()),
+            Table::Attribute => AttributeName::from_str(s).ok().map(|x| x.to_str()),
+            Table::Enum => EnumItem::from_str(s).ok().map(|x| x.to_str()),
+            Table::Version => AutosarVersion::from_str(s).ok().map(|v| v.filename()),
+        })
+    }
     fn lookup(self, b: &[u8]) -> Option<&'static str> {
         match self {
             Table::Element => ElementName::from_bytes(b).ok().map(|x| x.to_str()),
@@ -66,6 +76,16 @@ fn members(table: Table) -> Members {
 fn check_lookup(m: &Members, extra_members: &HashSet<Vec<u8>>, s: &[u8]) -> Result<bool, Failure> {
     let got = m.table.lookup(s);
     let is_member = m.set.contains(s) || extra_members.contains(s);
+    // both conversion paths must agree (from_bytes and FromStr)
+    if let Some(got_str) = m.table.lookup_str(s) {
+        if got_str != got {
+            return Err(Failure::new(
+                format!("lookup-from_str-differs-from-from_bytes:{}", m.table.name()),
+                format!("{}: from_bytes({:?}) gives {:?} but from_str gives {:?}", m.table.name(), String::from_utf8_lossy(s), got, got_str),
+                json!({"kind": "lookup", "table": m.table.name(), "input": bytes_json(s)}),
+            ));
+        }
+    }
     match got {
         Some(text) => {
             if text.as_bytes() != s {
